@@ -2,7 +2,7 @@
 import itertools
 
 ID = "C05"
-GEN_FILES = ["FramingConsts.v"]
+GEN_FILES = ["FramingConsts.v", "Prealloc.v"]
 RULE = ("read cases: message sequences framed from the spec (prefix = big-endian length), cut into chunks at every "
         "split point (short streams) or random points (long streams), Pending polls between chunks, truncation at every "
         "byte; write cases: write_framed through a writer that accepts b_i bytes per call vs frame_message; "
